@@ -67,7 +67,9 @@ struct Outcome {
 };
 
 // The Writer scenario: several buffers, an explicit flush in the middle, close.
-inline Outcome run_writer(const std::string& path, const Cfg& c, const std::vector<mdl::Obj>& D, int nthreads, bool flush_mid) {
+// item_prefix: that many leading objects are handed over as single items (internal buffer of the
+// Writer), followed by an explicit flush(), before the rest is written as whole buffers
+inline Outcome run_writer(const std::string& path, const Cfg& c, const std::vector<mdl::Obj>& D, int nthreads, bool flush_mid, size_t item_prefix = 0) {
     Outcome o;
     try {
         osmium::thread::Pool pool{nthreads, 10};
@@ -82,6 +84,15 @@ inline Outcome run_writer(const std::string& path, const Cfg& c, const std::vect
         auto note = [&](const char* at, const std::exception& e) { if (o.threw_at.empty()) { o.threw_at = at; o.error_type = demangle(typeid(e).name()); o.error = e.what(); } };
         const size_t per = std::max<size_t>(1, D.size() / static_cast<size_t>(buffers_per_file()));
         size_t i = 0;
+        if (item_prefix > 0) {
+            osmium::memory::Buffer ib{1024, osmium::memory::Buffer::auto_grow::yes};
+            for (; i < item_prefix && i < D.size() && o.threw_at.empty(); ++i) {
+                ib.clear();
+                mdl::to_buffer(D[i], ib);
+                try { (*writer)(*ib.begin()); } catch (const std::exception& e) { note("write", e); }
+            }
+            if (o.threw_at.empty()) { try { writer->flush(); } catch (const std::exception& e) { note("flush", e); } }
+        }
         while (i < D.size() && o.threw_at.empty()) {
             osmium::memory::Buffer buf{16 * 1024, osmium::memory::Buffer::auto_grow::yes};
             for (size_t k = 0; k < per && i < D.size(); ++k, ++i) mdl::to_buffer(D[i], buf);
